@@ -560,6 +560,10 @@ def check_rewrite(ctx: Ctx, inp) -> None:
         rewritten = update_quantifier(pattern, inp["min"], inp["max"])
     except Exception as exc:  # noqa: BLE001
         ctx.case(classes=["raised"])
+        if type(exc).__name__ == "InternalError" and "resulted in an invalid regex" in str(exc):
+            # the failure D26 names, met at its source instead of through generation
+            ctx.disagree("converse:InternalError:regex-quantifier-merging-produced-invalid-regex", f"update_quantifier({pattern!r}, {inp['min']}, {inp['max']}) raised {exc!r}"[:300], input=inp)
+            return
         ctx.disagree(f"rewrite:raised:{type(exc).__name__}", f"update_quantifier({pattern!r}, {inp['min']}, {inp['max']}) raised {exc!r}"[:300], input=inp)
         return
     changed = rewritten != pattern
